@@ -796,6 +796,44 @@ func dischargeOne(ex *Exec, ob *Obligation, opts dischargeOpts) {
 			ob.Detail = fmt.Sprintf("VC too large (%d bytes) on path %s", len(script), q.Path)
 			return
 		}
+		// strategy 0: the contract names the facts this step follows from
+		if len(q.Only) > 0 {
+			want := map[string]bool{}
+			for _, l := range q.Only {
+				want[l] = true
+			}
+			var sel []*Term
+			for _, h := range hyps {
+				if !hasQuantifier(h) {
+					sel = append(sel, h)
+					continue
+				}
+				// (facts merged from a branch are wrapped as guard => fact)
+				core := h
+				for core.Op == "=>" && len(core.Args) == 2 {
+					core = core.Args[1]
+				}
+				if tag, ok := ex.hypTags[core]; ok && want[tag] {
+					sel = append(sel, h)
+				} else if tag, ok := ex.assertTags[core]; ok && want[tag] {
+					sel = append(sel, h)
+				}
+			}
+			// global axioms (definitions) are in ax, which hyps starts with: keep them
+			for _, a := range ax {
+				if hasQuantifier(a) {
+					sel = append(sel, a)
+				}
+			}
+			script0 := q.Decls.query(sel, q.Goal, q.Vars)
+			b0, e0 := raceSolvers(opts.dir, fmt.Sprintf("%s.%d.from", ob.Name, i), script0, opts.timeoutS, opts.all)
+			if b0.Verdict == "unsat" {
+				solversUsed[b0.Solver+"+from"] = true
+				ob.Solver = b0.Solver + "+from"
+				_ = e0
+				continue
+			}
+		}
 		// strategy 1: everything, short timeout; strategy 2: quantified
 		// hypotheses that mention specification functions absent from the goal
 		// are left out (dropping hypotheses is always sound); strategy 3:
